@@ -648,8 +648,14 @@ verdict_t check_fcase(const fcase_t& c, ctx_t& ctx)
             worst = std::move(v);
         }
     };
-    const auto call = [&](const nano::function_t& q, double& v0, double& v1, VectorXd& g)
+    // half of the cases evaluate a copy of the penalty object (what a solver working on function.clone() sees): derived from the
+    // generated point, so that old replay files keep their meaning
+    const bool via_clone = (static_cast<long long>(std::floor(std::fabs(x(0)) * 1e6)) % 2) == 1;
+    ctx.label_if(via_clone, "evaluated-through-clone");
+    const auto call = [&](const nano::function_t& original, double& v0, double& v1, VectorXd& g)
     {
+        const auto     cloned = via_clone ? original.clone() : nano::rfunction_t{};
+        const auto&    q      = via_clone ? *cloned : original;
         const auto     xn = c05::to_nano(x);
         nano::vector_t gx(n);
         v0 = q.vgrad(xn);
@@ -1132,7 +1138,11 @@ verdict_t check_acase(const acase_t& c, ctx_t& ctx)
     {
         auto solver                         = nano::solver_augmented_lagrangian_t{};
         solver.parameter("solver::epsilon") = c.epsilon;
-        state                               = solver.minimize(*fn, c05::to_nano(x0), nano::logger_t{});
+        // half of the cases run a copy of the configured solver (as ml::params_t::solver() and per-thread copies do)
+        const bool via_clone = (static_cast<long long>(std::floor(std::fabs(x0(0)) * 1e6)) % 2) == 1;
+        ctx.label_if(via_clone, "solver-used-through-clone");
+        const auto cloned = via_clone ? solver.clone() : nano::rsolver_t{};
+        state             = (via_clone ? *cloned : static_cast<const nano::solver_t&>(solver)).minimize(*fn, c05::to_nano(x0), nano::logger_t{});
     }
     catch (const std::exception& e)
     {
